@@ -83,7 +83,7 @@ theorem chord_roundtrip (c : Chord) (h : ChordOK c) :
   obtain ⟨cc, h1, h2⟩ := chord_reread c h
   exact ⟨cc, rereadChord c, h1, h2, rfl, (extText_reread c).symm, rfl, rfl, sameParts_reread c.parts⟩
 
-/-- 14f203b (regression witness): `(I['5'] % I.M)(piano__0=s0)` prints its figure and comes back with it -/
+/-- 814ef78 (regression witness): `(I['5'] % I.M)(piano__0=s0)` prints its figure and comes back with it -/
 theorem figure5_kept :
     let c : Chord := { elem := 0, ext := { fig := .f5 }, ton := ⟨0, .M, 0⟩, parts := [("piano__0", [{ kind := .s, val := 0, oct := 0 }])] }
     (chordCode c).map ChordCode.text = .ok "(I['5'] % I.M)(\n\tpiano__0=s0)" ∧
@@ -153,7 +153,7 @@ def wCustom : Custom :=
   { notes := [{ kind := .s, val := 0, oct := 0 }]
     chord := { elem := 0, ton := ⟨0, .M, 0⟩, parts := [("piano__0", [{ kind := .b, val := 0, oct := 0, dur := 2 }])] } }
 
-/-- 6fc8934 (regression witness): a plain chord, a plain chord, a custom chord — the text is cut twice
+/-- b066a4a (regression witness): a plain chord, a plain chord, a custom chord — the text is cut twice
 and the three chords come back (before the repair: `Score([chord, Score([chord, custom])])`) -/
 theorem custom_after_two_plain_kept :
     let s : List Item := [.plain (wPlain 3), .plain (wPlain 4), .custom wCustom]
